@@ -2,9 +2,9 @@ package lint
 
 import (
 	"fmt"
-	"io"
 	"go/token"
 	"go/types"
+	"io"
 	"reflect"
 	"sort"
 	"strings"
@@ -212,6 +212,71 @@ func closureValue(v ssa.Value) (*ssa.MakeClosure, bool) {
 	return mc, ok
 }
 
+// cloneSite records, for every function literal copied by cloneAnon, the MakeClosure that creates the copy.
+var cloneSite = map[*ssa.Function]*ssa.MakeClosure{}
+
+// capturedClosure resolves the callee of a call inside a copied function literal h to a function
+// literal g of h's parent that h captured (by value, or by reference with a single assignment):
+// `helper(func(x) { … })` where helper runs its argument inside another literal.
+func capturedClosure(h *ssa.Function, v ssa.Value) (g *ssa.MakeClosure, mch *ssa.MakeClosure) {
+	mch = cloneSite[h]
+	if mch == nil {
+		return nil, nil
+	}
+
+	v = stripChangeType(v)
+
+	var fv *ssa.FreeVar
+
+	byRef := false
+
+	switch x := v.(type) {
+	case *ssa.FreeVar:
+		fv = x
+	case *ssa.UnOp:
+		if f, ok := x.X.(*ssa.FreeVar); ok && x.Op == token.MUL {
+			fv, byRef = f, true
+		}
+	}
+
+	if fv == nil || fv.Parent() != h {
+		return nil, nil
+	}
+
+	var bound ssa.Value
+
+	for i, f := range h.FreeVars {
+		if f == fv && i < len(mch.Bindings) {
+			bound = mch.Bindings[i]
+		}
+	}
+
+	if bound == nil {
+		return nil, nil
+	}
+
+	if byRef {
+		al, ok := bound.(*ssa.Alloc)
+		if !ok {
+			return nil, nil
+		}
+
+		st := SingleStore(al)
+		if st == nil {
+			return nil, nil
+		}
+
+		bound = st.Val
+	}
+
+	mc, ok := closureValue(bound)
+	if !ok || mc.Block() == nil || mc.Block().Parent() != mch.Block().Parent() {
+		return nil, nil
+	}
+
+	return mc, mch
+}
+
 func simpleBody(body *ssa.Function) string {
 	if len(body.Blocks) > inlineMaxBlocks {
 		return "too large"
@@ -254,9 +319,18 @@ func (p *Program) inlinable(f *ssa.Function, call *ssa.Call) (*ssa.Function, str
 	}
 
 	// a function literal handed to a standard-library model, called by the model
-	if mc, ok := closureValue(call.Call.Value); ok {
+	mc, ok := closureValue(call.Call.Value)
+	if !ok {
+		if g, _ := capturedClosure(f, call.Call.Value); g != nil {
+			mc, ok = g, true
+		}
+	}
+
+	if ok {
 		fn, _ := mc.Fn.(*ssa.Function)
-		if fn == nil || !inStdModelBlock(call.Block()) || len(fn.Blocks) == 0 || len(fn.Params) != len(call.Call.Args) || len(fn.FreeVars) != len(mc.Bindings) {
+		inHelper := strings.HasPrefix(call.Block().Comment, "inl:") || cloneSite[f] != nil
+
+		if fn == nil || !inHelper || len(fn.Blocks) == 0 || len(fn.Params) != len(call.Call.Args) || len(fn.FreeVars) != len(mc.Bindings) {
 			return nil, ""
 		}
 
@@ -348,6 +422,8 @@ func (p *Program) InlineAll() InlineStats {
 
 		rewrote := false
 
+		var pending []*ssa.Function
+
 		// iterate until no inlinable call is left (inlined bodies are already in normal form, but
 		// may contain calls that were recursive from the callee's point of view)
 		for round := 0; round < 64; round++ {
@@ -394,10 +470,30 @@ func (p *Program) InlineAll() InlineStats {
 				break
 			}
 
-			p.inlineCall(f, site, body)
+			// function literals of the callee are copied along with it: normalise them first
+			var lits func(fn *ssa.Function)
+
+			lits = func(fn *ssa.Function) {
+				for _, a := range fn.AnonFuncs {
+					if len(a.Blocks) > 0 {
+						visit(a, depth+1)
+					}
+
+					lits(a)
+				}
+			}
+
+			lits(body)
+
+			pending = append(pending, p.inlineCall(f, site, body)...)
 			callees[FuncName(body)] = true
 			st.Sites++
 			rewrote = true
+		}
+
+		// copies of function literals may now call literals they captured from f
+		for _, lit := range pending {
+			visit(lit, depth)
 		}
 
 		if rewrote {
@@ -428,6 +524,70 @@ func (p *Program) InlineAll() InlineStats {
 
 	domCache = map[*ssa.Function]map[*ssa.BasicBlock]map[*ssa.BasicBlock]bool{}
 	p.closureOf = map[*ssa.Function]*ssa.MakeClosure{}
+	p.callSites = nil
+
+	// helpers that no longer have any caller or other reference do not exist in the normal form:
+	// who-may-call / who-may-access rules must not see their bodies a second time
+	inlined := map[*ssa.Function]bool{}
+
+	for _, f := range p.AllOwnFuncs() {
+		if f.Parent() == nil && callees[FuncName(f)] {
+			inlined[f] = true
+		}
+	}
+
+	var buf [16]*ssa.Value
+
+	var scan func(f *ssa.Function)
+
+	scan = func(f *ssa.Function) {
+		if inlined[f] && f.Parent() == nil {
+			// references from the helper's own (dead) body do not keep another helper alive … unless the
+			// helper itself stays alive; resolved by the fixpoint below
+			return
+		}
+
+		for _, b := range f.Blocks {
+			for _, in := range b.Instrs {
+				for _, op := range in.Operands(buf[:0]) {
+					if g, ok := (*op).(*ssa.Function); ok && g != nil {
+						if o := g.Origin(); o != nil {
+							g = o
+						}
+
+						if inlined[g] {
+							delete(inlined, g)
+						}
+					}
+				}
+			}
+		}
+
+		for _, a := range f.AnonFuncs {
+			scan(a)
+		}
+	}
+
+	for range 4 {
+		before := len(inlined)
+
+		for _, f := range p.AllOwnFuncs() {
+			if f.Parent() == nil {
+				scan(f)
+			}
+		}
+
+		if len(inlined) == before {
+			break
+		}
+	}
+
+	// methods can be reached through interfaces: keep every method whose name some interface of the
+	// module or its dependencies could select (conservatively: exported methods are never helpers
+	// anyway; unexported interface methods are rare — keep those whose name appears in any call by invoke)
+	p.inlinedAway = inlined
+	p.funcsCache = map[string][]*ssa.Function{}
+	p.allFuncs = nil
 
 	return st
 }
@@ -536,7 +696,7 @@ func replaceUses(old, nw ssa.Value) {
 }
 
 // inlineCall replaces `call` (in f) by a copy of body's blocks.
-func (p *Program) inlineCall(f *ssa.Function, call *ssa.Call, body *ssa.Function) {
+func (p *Program) inlineCall(f *ssa.Function, call *ssa.Call, body *ssa.Function) []*ssa.Function {
 	b := call.Block()
 	idx := -1
 
@@ -585,6 +745,18 @@ func (p *Program) inlineCall(f *ssa.Function, call *ssa.Call, body *ssa.Function
 		for i, fv := range body.FreeVars {
 			vmap[fv] = mc.Bindings[i]
 		}
+	} else if g, mch := capturedClosure(f, call.Call.Value); g != nil {
+		// what the captured literal captures becomes captured by f as well
+		for i, fv := range body.FreeVars {
+			nv := new(ssa.FreeVar)
+			*nv = *fv
+			setField(nv, "parent", f)
+			*nv.Referrers() = nil
+			f.FreeVars = append(f.FreeVars, nv)
+			mch.Bindings = append(mch.Bindings, g.Bindings[i])
+			addReferrer(g.Bindings[i], mch)
+			vmap[fv] = nv
+		}
 	}
 
 	bmap := map[*ssa.BasicBlock]*ssa.BasicBlock{}
@@ -630,6 +802,22 @@ func (p *Program) inlineCall(f *ssa.Function, call *ssa.Call, body *ssa.Function
 
 		for _, s := range ob.Preds {
 			nb.Preds = append(nb.Preds, bmap[s])
+		}
+	}
+
+	// function literals created by the callee now belong to f: give each its own copy whose parent is
+	// f, so that what it captures is described in terms of f's values
+	var newLits []*ssa.Function
+
+	for _, c := range clones {
+		if mc, ok := c.(*ssa.MakeClosure); ok {
+			if afn, ok := mc.Fn.(*ssa.Function); ok && afn.Parent() == body {
+				nfn := cloneAnon(afn, f, 0)
+				mc.Fn = nfn
+				cloneSite[nfn] = mc
+				f.AnonFuncs = append(f.AnonFuncs, nfn)
+				newLits = append(newLits, nfn)
+			}
 		}
 	}
 
@@ -748,6 +936,115 @@ func (p *Program) inlineCall(f *ssa.Function, call *ssa.Call, body *ssa.Function
 	for i, blk := range f.Blocks {
 		blk.Index = i
 	}
+
+	return newLits
+}
+
+// cloneAnon deep-copies an anonymous function (blocks, parameters, free variables, nested
+// literals) and makes newParent its enclosing function.
+func cloneAnon(fn, newParent *ssa.Function, depth int) *ssa.Function {
+	nf := new(ssa.Function)
+	*nf = *fn
+	setField(nf, "parent", newParent)
+	nf.AnonFuncs = nil
+	nf.Blocks = nil
+	nf.Locals = nil
+
+	vmap := map[ssa.Value]ssa.Value{}
+
+	nf.Params = make([]*ssa.Parameter, len(fn.Params))
+	for i, prm := range fn.Params {
+		np := new(ssa.Parameter)
+		*np = *prm
+		setField(np, "parent", nf)
+		*np.Referrers() = nil
+		nf.Params[i] = np
+		vmap[prm] = np
+	}
+
+	nf.FreeVars = make([]*ssa.FreeVar, len(fn.FreeVars))
+	for i, fv := range fn.FreeVars {
+		nv := new(ssa.FreeVar)
+		*nv = *fv
+		setField(nv, "parent", nf)
+		*nv.Referrers() = nil
+		nf.FreeVars[i] = nv
+		vmap[fv] = nv
+	}
+
+	bmap := map[*ssa.BasicBlock]*ssa.BasicBlock{}
+
+	for _, ob := range fn.Blocks {
+		nb := newBlock(nf, ob.Comment)
+		nb.Index = ob.Index
+		bmap[ob] = nb
+		nf.Blocks = append(nf.Blocks, nb)
+	}
+
+	if fn.Recover != nil {
+		nf.Recover = bmap[fn.Recover]
+	}
+
+	var clones []ssa.Instruction
+
+	for _, ob := range fn.Blocks {
+		nb := bmap[ob]
+
+		for _, in := range ob.Instrs {
+			c := cloneInstr(in)
+			setBlock(c, nb)
+
+			if v, ok := in.(ssa.Value); ok {
+				vmap[v] = c.(ssa.Value)
+			}
+
+			if al, ok := c.(*ssa.Alloc); ok && !al.Heap {
+				nf.Locals = append(nf.Locals, al)
+			}
+
+			nb.Instrs = append(nb.Instrs, c)
+			clones = append(clones, c)
+		}
+
+		for _, sb := range ob.Succs {
+			nb.Succs = append(nb.Succs, bmap[sb])
+		}
+
+		for _, pb := range ob.Preds {
+			nb.Preds = append(nb.Preds, bmap[pb])
+		}
+	}
+
+	if depth < 3 {
+		for _, c := range clones {
+			if mc, ok := c.(*ssa.MakeClosure); ok {
+				if afn, ok := mc.Fn.(*ssa.Function); ok && afn.Parent() == fn {
+					nfn := cloneAnon(afn, nf, depth+1)
+					mc.Fn = nfn
+					cloneSite[nfn] = mc
+					nf.AnonFuncs = append(nf.AnonFuncs, nfn)
+				}
+			}
+		}
+	}
+
+	var buf [8]*ssa.Value
+
+	for _, c := range clones {
+		for _, op := range c.Operands(buf[:0]) {
+			if *op == nil {
+				continue
+			}
+
+			if nv, ok := vmap[*op]; ok {
+				*op = nv
+			}
+
+			addReferrer(*op, c)
+		}
+	}
+
+	return nf
 }
 
 func removeInstr(in ssa.Instruction) {
